@@ -96,4 +96,19 @@ CLAIMED = {
                 "(cannot be judged), never as a violation; a dropped/changed term, coefficient, sign or argument order is a violation.",
         "technique": "expression normalisation to canonical polynomial forms + structural guard rules (no paths, no solver)",
     },
+    "C16": {
+        "category": "proof",
+        "text": "Closed set of rewriting identities decided on expressions extracted from kafe2/core/confidence.py: the canonical forms of the two conversions "
+                "equal cl = 1 - Q(n/2, s^2/2) (the chi2_n CDF at s^2) and s = sqrt(2 Q^-1(n/2, 1 - cl)); composing the *extracted* expressions in both orders "
+                "rewrites to the identity using only polynomial arithmetic with rational coefficients, sqrt(x)^2 = x on positives and the inverse pair "
+                "Q^-1(a, Q(a, x)) = x (so 'exact inverses' holds for every n, s, cl in the domain, given scipy's special functions); delta_nll = s^2; "
+                "instantiating n = 2 and Q(1, x) = exp(-x) yields exactly the contour level used for iminuit; setters clear the other representation; every "
+                "ConfidenceLevel call site has the dimension of its context; in each of the four branches of the arrow computation the displayed tail "
+                "probability and the level converted to sigma agree (central vs one-sided) and the cost target is min + sigma^2; argument-slot rule (F1) on "
+                "the 265 resolved call sites of the profile/contour call chain.",
+        "note": "Trusted base: the extraction step (ast + temporaries inlining) and scipy.special.gammaincc/gammainccinv being the regularised upper incomplete "
+                "gamma function and its inverse in the second argument. Monotonicity and the tabulated 68.27/95.45/99.73 % follow from the CDF identity and "
+                "are not re-derived numerically. A branch structure of the arrow computation that the rule cannot read is ANALYSIS-ERROR, not a violation.",
+        "technique": "expression normalisation + rewriting with declared inverse pairs (term rewriting proof), call-site dimension table, argument-slot rule",
+    },
 }
